@@ -19,6 +19,7 @@ from yowsup.layers.protocol_messages.protocolentities import TextMessageProtocol
 ID = "C17"
 LEVEL = "exploration"
 RULE = ("generated histories of 2-12 operations over 2-3 accounts with automatic trust on/off per account: message(from, to), "
+        "group message(from) to the group of all accounts (decided per member), "
         "reinstall(account) (fresh profile directory: new identity, first login uploads new keys), restart(account), notify(owner, contact) "
         "(the server's identity-change notification, answered by the library with a key-bundle fetch); every operation "
         "is settled before the next. After each message the model decides whether it must be delivered (the sender accepts the "
@@ -26,11 +27,12 @@ RULE = ("generated histories of 2-12 operations over 2-3 accounts with automatic
         "are read from each owner's SQLite store through a separate connection. Non-trivial = a reinstall followed by traffic in both "
         "directions between the reinstalled account and another one. Distinct = distinct canonical JSON.")
 ASSUMPTIONS = [
-    "one-to-one messages only (group sender keys are covered by C03); delivery order is FIFO here, reordering is C03's domain",
+    "delivery order is FIFO here, reordering and duplication are C03's domain; one group containing all accounts",
     "external defect E3 corrected in the harness as in C03",
 ]
 
 JIDS = c03.JIDS[:3]
+GROUP = c03.GROUPS[0]
 
 
 def db_path(home, phone):
@@ -80,6 +82,7 @@ class World17(object):
             self.server.keys[jid] = A.copy_bundle(bundle)
             self.clients[jid] = A.Client(self.server, jid, h, props=self.props_of(jid))
             self.identity[(jid, 0)] = own_identity(h, jid.split("@")[0])
+        self.server.groups[GROUP] = list(self.jids)
         for c in self.clients.values():
             c.connect()
             A.settle(self.server, self.clients)
@@ -155,15 +158,20 @@ def _run(case, out, w):
     n_msgs = 0
     for step, op in enumerate(case["ops"]):
         kind = op[0]
-        if kind == "send":
+        if kind in ("send", "gsend"):
             s = w.jids[op[1] % len(w.jids)]
             others = [j for j in w.jids if j != s]
-            r = others[op[2] % len(others)]
+            if kind == "gsend":
+                to = GROUP
+                recipients = others
+                out.label("group_message")
+            else:
+                to = others[op[2] % len(others)]
+                recipients = [to]
             n_msgs += 1
             body = "pinned-%d-%s" % (n_msgs, c03.marker(n_msgs, "b"))
-            ent = TextMessageProtocolEntity(body, to=r)
-            s_accepts, r_accepts = accepts(s, r), accepts(r, s)
-            expected = s_accepts and r_accepts
+            ent = TextMessageProtocolEntity(body, to=to)
+            verdicts = {r: (accepts(s, r), accepts(r, s)) for r in recipients}
             if not clients[s].connected():
                 clients[s].connect()
                 A.settle(server, clients)
@@ -174,44 +182,58 @@ def _run(case, out, w):
             if not A.settle(server, clients):
                 out.fail("drain", "queues_do_not_drain", {"step": step, "left": len(server.outq)})
                 return out
-            got = [e for e in clients[r].app_got if e.getTag() == "message" and e.getId() == ent.getId()]
-            label = "expected_delivery" if expected else ("sender_refuses" if not s_accepts else "recipient_refuses")
-            out.label(label)
-            if s in reinstalled or r in reinstalled:
-                traffic_after_reinstall.add((s, r))
-            if expected and len(got) != 1:
-                out.fail("delivery", "delivery:message_delivered_%d_times_expected_1" % len(got),
-                         {"step": step, "from": s, "to": r, "autotrust_sender": w.autotrust[s], "autotrust_recipient": w.autotrust[r],
-                          "pin_sender": pin[s].get(r), "pin_recipient": pin[r].get(s), "versions": dict(w.version)})
-                return out
-            if not expected and got:
-                which = "message_encrypted_for_unaccepted_new_identity" if not s_accepts else "message_from_unaccepted_new_identity_delivered"
-                out.fail("pin", "pin:%s" % which, {"step": step, "from": s, "to": r, "pin_sender": pin[s].get(r), "pin_recipient": pin[r].get(s),
-                                                   "versions": dict(w.version)})
-                return out
-            if got and (got[0].getBody() != body or got[0].getFrom() != s):
-                out.fail("delivery", "delivery:content_or_sender_differs", {"step": step})
-                return out
-            # model update.  The sender always transmits something (with its existing session, or with a fresh one if it
-            # accepts the recipient's identity); a recipient that cannot decrypt for lack of a session fetches the sender's
-            # keys, so it learns - and, if it accepts it, pins - the sender's identity whether or not the message gets through
-            if s_accepts:
-                pin[s][r] = w.version[r]
-            if r_accepts:
-                if expected or pin[r].get(s) is not None:
-                    pin[r][s] = w.version[s]
-                else:
-                    # not delivered and nothing pinned yet: whether the recipient fetched the sender's keys depends on the
-                    # ratchet state of the sender's stale session (an unacknowledged one sends prekey messages, which are
-                    # answered with a retry only).  Both outcomes are legitimate: absent, or the sender's current identity.
-                    got_pin = stored_pin(w.homes[r], r.split("@")[0], s.split("@")[0])
-                    if got_pin is not None:
-                        if got_pin != w.identity[(s, w.version[s])]:
-                            out.fail("pin", "pin:stored_identity_differs", {"step": step, "owner": r, "contact": s})
-                            return out
+            scope = "group:" if kind == "gsend" else ""
+            for r in recipients:
+                s_accepts, r_accepts = verdicts[r]
+                expected = s_accepts and r_accepts
+                got = [e for e in clients[r].app_got if e.getTag() == "message" and e.getId() == ent.getId()]
+                label = "expected_delivery" if expected else ("sender_refuses" if not s_accepts else "recipient_refuses")
+                out.label(scope + label)
+                if s in reinstalled or r in reinstalled:
+                    traffic_after_reinstall.add((s, r))
+                if expected and len(got) != 1:
+                    out.fail("delivery", "delivery:%smessage_delivered_%d_times_expected_1" % (scope, len(got)),
+                             {"step": step, "from": s, "to": r, "autotrust_sender": w.autotrust[s], "autotrust_recipient": w.autotrust[r],
+                              "pin_sender": pin[s].get(r), "pin_recipient": pin[r].get(s), "versions": dict(w.version)})
+                    return out
+                if not expected and got:
+                    which = "message_encrypted_for_unaccepted_new_identity" if not s_accepts else "message_from_unaccepted_new_identity_delivered"
+                    out.fail("pin", "pin:%s%s" % (scope, which), {"step": step, "from": s, "to": r, "pin_sender": pin[s].get(r),
+                                                                 "pin_recipient": pin[r].get(s), "versions": dict(w.version)})
+                    return out
+                if got and (got[0].getBody() != body or (got[0].getParticipant() if kind == "gsend" else got[0].getFrom()) != s):
+                    out.fail("delivery", "delivery:content_or_sender_differs", {"step": step})
+                    return out
+                # model update.  The sender always transmits something (with its existing session, or with a fresh one if it
+                # accepts the recipient's identity); a recipient that cannot decrypt for lack of a session fetches the sender's
+                # keys, so it learns - and, if it accepts it, pins - the sender's identity whether or not the message gets through
+                if s_accepts:
+                    if kind == "send" or expected or pin[s].get(r) is not None:
+                        pin[s][r] = w.version[r]
+                    else:
+                        # group message to a member the sender had no pin for, not delivered: whether the sender opened a session
+                        # depends on what it still had; absent or the member's current identity are both legitimate
+                        got_pin = stored_pin(w.homes[s], s.split("@")[0], r.split("@")[0])
+                        if got_pin is not None:
+                            if got_pin != w.identity[(r, w.version[r])]:
+                                out.fail("pin", "pin:stored_identity_differs", {"step": step, "owner": s, "contact": r})
+                                return out
+                            pin[s][r] = w.version[r]
+                if r_accepts:
+                    if expected or pin[r].get(s) is not None:
                         pin[r][s] = w.version[s]
+                    else:
+                        # not delivered and nothing pinned yet: whether the recipient fetched the sender's keys depends on the
+                        # ratchet state of the sender's stale session (an unacknowledged one sends prekey messages, which are
+                        # answered with a retry only).  Both outcomes are legitimate: absent, or the sender's current identity.
+                        got_pin = stored_pin(w.homes[r], r.split("@")[0], s.split("@")[0])
+                        if got_pin is not None:
+                            if got_pin != w.identity[(s, w.version[s])]:
+                                out.fail("pin", "pin:stored_identity_differs", {"step": step, "owner": r, "contact": s})
+                                return out
+                            pin[r][s] = w.version[s]
             for other in w.jids:
-                if other not in (r,) and any(e.getTag() == "message" and e.getId() == ent.getId() for e in clients[other].app_got):
+                if other not in recipients and any(e.getTag() == "message" and e.getId() == ent.getId() for e in clients[other].app_got):
                     out.fail("delivery", "delivery:message_reached_someone_else", {"step": step})
                     return out
         elif kind == "reinstall":
@@ -277,7 +299,8 @@ def shrink_candidates(case):
 def script_strategy():
     sel = st.integers(0, 5)
     send = st.tuples(st.just("send"), sel, sel).map(list)
-    op = st.one_of(send, send, send, send, st.tuples(st.just("reinstall"), sel).map(list), st.tuples(st.just("restart"), sel).map(list),
+    gsend = st.tuples(st.just("gsend"), sel).map(list)
+    op = st.one_of(send, send, send, gsend, gsend, st.tuples(st.just("reinstall"), sel).map(list), st.tuples(st.just("restart"), sel).map(list),
                    st.tuples(st.just("notify"), sel, sel).map(list))
 
     @st.composite
